@@ -53,6 +53,10 @@ def run(repo, rep, tier):
     rep.instances.append(i)
   for k in SHARED:
     a, b = enf['exhaustive_search'].get(k), enf['greedy_search'].get(k)
+    if k not in enf['exhaustive_search'] or k not in enf['greedy_search'] or (a and a[0] == 'undecided') or (b and b[0] == 'undecided'):
+      # the enforcement of one side could not be analysed (reported as undecided by R2/must-pass): nothing to compare
+      rep.undecided('R2/sibling-agreement', k, 'the enforcement in one of the searches is not understood: exhaustive=%s greedy=%s' % (a, b))
+      continue
     rep.check(bool(a) and bool(b), 'R2/sibling-agreement', 'both searches enforce %s on the pushed pair' % k, 'tbrmatchedmarkets.TBRMatchedMarkets',
               '%s: exhaustive=%s greedy=%s' % (k, a, b),
               'constraint %s is enforced by %s only: the greedy search can return a design the exhaustive search never ranks'
